@@ -43,6 +43,40 @@ def check(kind, steps, dt, freq, refrac, comp, seed, online):
     return None
 
 
+def config_cases():
+    """encoder configuration through the setters: a refractory period ASSIGNED after construction is a given one (it
+    stays when the step time changes), a derived one follows dt; and the generated train honours the period in force"""
+    from inferno.neural import HomogeneousPoissonEncoder
+
+    fails, n = [], 0
+    for comp in (True, False):
+        for r0 in (None, 2.0):
+            n += 1
+            e = HomogeneousPoissonEncoder(40, 1.0, 150.0, refrac=r0, compensate=comp, generator=torch.Generator().manual_seed(3))
+            inp = dict(compensate=comp, constructed_with_refrac=r0)
+            e.dt = 0.5
+            want = 0.5 if r0 is None else r0
+            if abs(e.refrac - want) > 1e-12:
+                fails.append({"what": "C19/config/refrac_after_dt_change", "input": inp, "expected": want, "actual": e.refrac})
+                continue
+            e.refrac = 3.0
+            e.dt = 1.0
+            if abs(e.refrac - 3.0) > 1e-12 or abs(e.dt - 1.0) > 1e-12:
+                fails.append({"what": "C19/config/assigned_refrac_lost_on_dt_change", "input": dict(inp, assigned=3.0, new_dt=1.0), "expected": [3.0, 1.0], "actual": [e.refrac, e.dt]})
+                continue
+            out = e(torch.ones(4), online=False)
+            for j in range(4):
+                t = torch.nonzero(out[:, j]).flatten().tolist()
+                if any(b - a < 3 for a, b in zip(t, t[1:])):
+                    fails.append({"what": "C19/config/train_ignores_assigned_refrac", "input": dict(inp, assigned=3.0), "expected": "gaps >= 3 steps", "actual": t})
+                    break
+    uniq = []
+    for f in fails:
+        if not any(u["what"] == f["what"] for u in uniq):
+            uniq.append(f)
+    return uniq, n
+
+
 def sweep(tier="quick", seed=0, unsupported=()):
     failures, cases = [], 0
     cfgs = [(1.0, None), (1.0, 1.0), (1.0, 3.0), (0.5, 2.0), (0.1, 0.3), (0.1, 0.5), (0.1, 0.7), (0.25, 1.0)]
@@ -56,7 +90,10 @@ def sweep(tier="quick", seed=0, unsupported=()):
                 f = check(kind, 60, dt, 150.0 if comp else 400.0, refrac, comp, seed * 1000 + s, online)
                 if f is not None and not any(x["what"] == f["what"] and x["input"]["online"] == online for x in failures):
                     failures.append(f)
-    return {"standins": [{"function": "3 encoder classes offline and online: boolean (steps, *shape) output, silence at zero intensity, refractory gap >= round(refrac/dt) steps, reproducibility from equal generator state", "domain": f"{len(cfgs)} (dt, refrac) pairs incl. non-dyadic dt=0.1 with refrac in {{0.3,0.5,0.7}} x compensate x online/offline x {len(seeds)} seeds", "cases": cases, "proved": False, "label": "bounded"}], "failures": failures}
+    fc, nc = config_cases()
+    failures.extend(fc)
+    cases += nc
+    return {"standins": [{"function": "encoder configuration through the setters (derived vs assigned refractory period across dt changes); 3 encoder classes offline and online: boolean (steps, *shape) output, silence at zero intensity, refractory gap >= round(refrac/dt) steps, reproducibility from equal generator state", "domain": f"{len(cfgs)} (dt, refrac) pairs incl. non-dyadic dt=0.1 with refrac in {{0.3,0.5,0.7}} x compensate x online/offline x {len(seeds)} seeds", "cases": cases, "proved": False, "label": "bounded"}], "failures": failures}
 
 
 def replay(contract, label, model, note=""):
@@ -68,5 +105,9 @@ def replay(contract, label, model, note=""):
 
 def replay_native(rp):
     i = rp["input"]
+    if str(rp.get("what", "")).startswith("C19/config"):
+        fs, _ = config_cases()
+        hit = [f for f in fs if f["what"] == rp.get("what")]
+        return {"reproduced": bool(hit), "failure": hit[0] if hit else None}
     f = check(i["kind"], i["steps"], i["dt"], i["freq"], i["refrac"], i["compensate"], i["seed"], i["online"])
     return {"reproduced": f is not None, "failure": f}
